@@ -1,11 +1,338 @@
 import Driver.Handlers
 import Wee.Model.SearchEnv
 /-! `ilcheck`: is the logged history of table operations of a REAL multi-threaded search an `Interleaving` of the model?
-(tie between `Wee/Model/SearchEnv.lean` and the real engine; request format in the handler) -/
-namespace Driver
-open Wee
+(tie between `Wee/Model/SearchEnv.lean` and the real engine)
 
-/-- placeholder until the replay is written -/
-def ilcheck (_line : String) : Out := ⟨"todo", "-"⟩
+Request: `ilcheck <seed> <depth> <workers> <tables> <buckets> <nfen_tokens> <fen tokens...> <log tokens...>`, a log token
+is `ticket:id:i|f:key:kind,mv,depth,maxdepth,eval|-` as the harness request `searchlog` prints it (ticket order = the
+order in which the operations held the lock of their sub-table; `id = 1000000 + iteration*1000 + worker`; other ids are
+the main thread's reads of the line and are not part of any worker).
+
+The search is rebuilt the way `Search.iterate` does it; in every iteration the workers are not run one after the other
+but each in the environment that the logged history `H` of that iteration induces for it, and its own log is compared with
+its part of `H`: `okIter … = true ↔ Interleaving ctx root tt ws H` (theorem `okIter_iff`).  The joined results go through
+`finishStep` (the text of `analyze_iterative` after the join), so that the answer also carries the events (node counts,
+evaluations, lines) the model predicts FOR THIS SCHEDULE; the checker compares them with the real ones.
+
+Answer: `ok <n_iterations> <n_ops> <events…> entries:<n>/<max> root:<entry>` or
+`mismatch iteration=<d> worker=<i> op=<k> expected=<model's op> got=<logged op>` (the earliest difference in `H`). -/
+namespace Driver
+open Wee Wee.Search
+
+/-! ## the environment of a worker, computed without deep recursion and looked up in an array -/
+
+/-- `batchesOf` one record at a time, from the right -/
+def stepB (i : Nat) (p : Nat × TOp) (acc : List (List (Nat × TT.Entry))) : List (List (Nat × TT.Entry)) :=
+  match p with
+  | (j, .find _ _) => if j == i then [] :: acc else acc
+  | (j, .insert k e) => if j == i then [] :: acc else consHead (k, e) acc
+
+theorem batchesOf_eq_foldr (i : Nat) (H : History) : batchesOf i H = H.foldr (stepB i) [[]] := by
+  induction H with
+  | nil => rfl
+  | cons p rest ih =>
+    obtain ⟨j, op⟩ := p
+    cases op <;> simp [batchesOf, stepB, ih]
+
+/-- `envOf H i` with the batches in an array (`List.foldr` is compiled to a loop over an array) -/
+def envFast (H : History) (i : Nat) : Env :=
+  let arr := (H.foldr (stepB i) [[]]).toArray
+  ⟨fun k => arr.getD k []⟩
+
+theorem envFast_eq (H : History) (i : Nat) : envFast H i = envOf H i := by
+  unfold envFast envOf Env.ofList
+  rw [batchesOf_eq_foldr]
+  show Env.mk _ = Env.mk _
+  congr 1
+  funext k
+  simp
+
+/-! ## one iteration -/
+
+abbrev RunOut := Except Stop Eval × St × List TOp
+
+/-- every worker in the environment `H` is for it (the runs are independent: one task each) -/
+def outsOf (ctx : Ctx) (root : State) (tt : TT.Access) (ws : List Worker) (H : History) : List RunOut :=
+  (ws.zipIdx.map fun p => Task.spawn fun _ => runWorkerE (envFast H p.2) ctx root p.1 tt).map Task.get
+
+theorem outsOf_eq (ctx : Ctx) (root : State) (tt : TT.Access) (ws : List Worker) (H : History) :
+    outsOf ctx root tt ws H = ws.zipIdx.map fun p => runWorkerE (envOf H p.2) ctx root p.1 tt := by
+  simp [outsOf, envFast_eq, Task.spawn]
+
+/-- the executable form of `Interleaving`, on the runs `outs` -/
+def okOuts (ws : List Worker) (H : History) (outs : List RunOut) : Bool :=
+  H.all (fun p => p.1 < ws.length) && outs.zipIdx.all fun o => o.1.2.2 == H.proj o.2
+
+def okIter (ctx : Ctx) (root : State) (tt : TT.Access) (ws : List Worker) (H : History) : Bool :=
+  okOuts ws H (outsOf ctx root tt ws H)
+
+theorem okIter_iff (ctx : Ctx) (root : State) (tt : TT.Access) (ws : List Worker) (H : History) :
+    okIter ctx root tt ws H = true ↔ Interleaving ctx root tt ws H := by
+  unfold okIter okOuts Interleaving
+  rw [outsOf_eq, Bool.and_eq_true, List.all_eq_true, List.all_eq_true]
+  constructor
+  · rintro ⟨h1, h2⟩
+    refine ⟨fun p hp => by simpa using h1 p hp, fun i hi => ?_⟩
+    have := h2 ((runWorkerE (envOf H i) ctx root ws[i] tt), i) (by
+      rw [List.mem_iff_getElem]
+      refine ⟨i, by simpa using hi, by simp⟩)
+    simpa using this
+  · rintro ⟨h1, h2⟩
+    refine ⟨fun p hp => by simpa using h1 p hp, fun o ho => ?_⟩
+    rw [List.mem_iff_getElem] at ho
+    obtain ⟨i, hi, rfl⟩ := ho
+    have hi' : i < ws.length := by simpa using hi
+    simpa using h2 i hi'
+
+/-- the joined results: the text of `joinOf` on the runs already made -/
+def joinOuts (tt : TT.Access) (H : History) (outs : List RunOut) : WorkersOut :=
+  { tt := History.table tt H
+    polls := 0
+    evals := outs.filterMap fun o => match o.1 with | .ok e => some e | _ => Option.none
+    sumNodes := (outs.map fun o => o.2.1.nodes).sum
+    interrupted := outs.any fun o => match o.1 with | .error .interrupt => true | _ => false
+    panic := outs.findSome? fun o => match o.1 with | .error (.panic why) => some why | _ => Option.none }
+
+theorem range_filterMap_getElem? {α β : Type} (ws : List α) (f : Nat → α → β) :
+    (List.range ws.length).filterMap (fun i => ws[i]?.map (f i)) = ws.zipIdx.map (fun p => f p.2 p.1) := by
+  induction ws generalizing f with
+  | nil => rfl
+  | cons x xs ih =>
+    rw [List.length_cons, List.range_succ_eq_map, List.filterMap_cons]
+    simp only [List.getElem?_cons_zero, Option.map_some, List.filterMap_map]
+    rw [List.zipIdx_cons, List.map_cons]
+    congr 1
+    have := ih (fun i => f (i + 1))
+    simp only [Function.comp_def, List.getElem?_cons_succ]
+    rw [this, List.zipIdx_succ]
+    simp [Function.comp_def]
+
+/-- the joined results computed here are `joinOf` of the semantics -/
+theorem joinOuts_eq (ctx : Ctx) (root : State) (tt : TT.Access) (ws : List Worker) (H : History) :
+    joinOuts tt H (outsOf ctx root tt ws H) = joinOf ctx root tt ws H 0 := by
+  unfold joinOuts joinOf
+  rw [outsOf_eq, range_filterMap_getElem? ws (fun i w => runWorkerE (envOf H i) ctx root w tt)]
+  rfl
+
+/-- **what one accepted iteration of the replay establishes**: the state the replay carries to the next iteration is
+a `StepS`-successor — the real iteration is one iteration of `analyze_iterative` under the logged schedule -/
+theorem ilStep_sound (ctx : Ctx) (root : State) (rootHash : UInt64) (workers depth : Nat) (st : IterSt) (H : History)
+    (h : okIter ctx root st.tt (workersOfIteration depth st.bestMv (drawSeeds workers st.rng).1 fun _ => 0) H = true) :
+    StepS ctx root rootHash workers depth st
+      (finishStep ctx root rootHash depth (drawSeeds workers st.rng).2
+        (joinOuts st.tt H (outsOf ctx root st.tt (workersOfIteration depth st.bestMv (drawSeeds workers st.rng).1 fun _ => 0) H)) st) :=
+  ⟨fun _ => 0, _, H, 0, List.Sublist.refl _, fun _ _ => rfl, (okIter_iff ..).1 h, by rw [joinOuts_eq]⟩
+
+/-! ## reporting -/
+
+def opStr : TOp → String
+  | .find k r => s!"f:{k}={entryStr r}"
+  | .insert k e => s!"i:{k}={entryStr (some e)}"
+
+def optOpStr : Option TOp → String
+  | some op => opStr op
+  | Option.none => "nothing"
+
+/-- first index at which the two logs differ -/
+def firstDiff : List TOp → List TOp → Nat → Option (Nat × Option TOp × Option TOp)
+  | [], [], _ => Option.none
+  | a :: as, b :: bs, k => if a = b then firstDiff as bs (k + 1) else some (k, some a, some b)
+  | a :: _, [], k => some (k, some a, Option.none)
+  | [], b :: _, k => some (k, Option.none, some b)
+
+/-- position in `H` of the `k`-th operation of worker `i` (`H.size` if it has fewer) -/
+def globalPos (H : Array (Nat × TOp)) (i k : Nat) : Nat := Id.run do
+  let mut seen := 0
+  for h : pos in [0:H.size] do
+    if H[pos].1 == i then
+      if seen == k then return pos
+      seen := seen + 1
+  return H.size
+
+structure Diff where
+  pos : Nat
+  worker : Nat
+  op : Nat
+  expected : String
+  got : String
+
+/-- the earliest difference (in the order of `H`) between the history and the model's workers -/
+def firstMismatch (ws : List Worker) (H : Array (Nat × TOp)) (outs : List RunOut) : Option Diff := Id.run do
+  let mut best : Option Diff := Option.none
+  let better (d : Diff) (b : Option Diff) : Option Diff := match b with
+    | some x => if d.pos < x.pos then some d else some x
+    | Option.none => some d
+  for h : pos in [0:H.size] do
+    if H[pos].1 ≥ ws.length then
+      best := better ⟨pos, H[pos].1, 0, "no-such-worker", opStr H[pos].2⟩ best
+      break
+  let Hl := H.toList
+  for (o, i) in outs.zipIdx do
+    match firstDiff o.2.2 (History.proj Hl i) 0 with
+    | some (k, e, g) => best := better ⟨globalPos H i k, i, k, optOpStr e, optOpStr g⟩ best
+    | Option.none => pure ()
+  return best
+
+/-! ## the request -/
+
+structure Rec where
+  iter : Nat
+  worker : Nat
+  op : TOp
+
+/-- `ticket:id:i|f:key:kind,mv,depth,maxdepth,eval|-` → (ticket, id, operation) -/
+def parseRec (tok : String) : Option (Nat × Nat × TOp) :=
+  match tok.splitOn ":" with
+  | [t, id, io, key, payload] =>
+    match t.toNat?, id.toNat?, key.toNat? with
+    | some t, some id, some key =>
+      let entry : Option TT.Entry := match payload.splitOn "," with
+        | [k, m, d, md, ev] =>
+          match k.toNat?, m.toNat?, d.toNat?, md.toNat? with
+          | some k, some m, some d, some md => some { kind := k, mv := m, depth := d, maxDepth := md, eval := parseInt ev }
+          | _, _, _, _ => Option.none
+        | _ => Option.none
+      if io == "i" then
+        match entry with
+        | some e => some (t, id, .insert key e)
+        | Option.none => Option.none
+      else if io == "f" then
+        if payload == "-" then some (t, id, .find key Option.none)
+        else match entry with
+          | some e => some (t, id, .find key (some e))
+          | Option.none => Option.none
+      else Option.none
+    | _, _, _ => Option.none
+  | _ => Option.none
+
+def eventStr : Event → String
+  | .best ev line => s!"best:{ev}:{",".intercalate (line.map fun m => toString m.toNat)}"
+  | .progress d n => s!"prog:{d}:{n}"
+  | .warning => "warn"
+
+/-- the deepening loop of `iterate` with every iteration's workers raced under the logged history of that iteration:
+(number of iterations, number of operations replayed, final state), or the first difference -/
+def ilLoop (ctx : Ctx) (root : State) (rootHash : UInt64) (workers : Nat) (hist : Array (Array (Nat × TOp))) :
+    Nat → Nat → Nat → IterSt → Except String (Nat × Nat × IterSt)
+  | 0, depth, nops, st => .ok (depth, nops, st)
+  | n + 1, depth, nops, st =>
+    if st.finished then .ok (depth, nops, st) else
+    let ws := workersOfIteration depth st.bestMv (drawSeeds workers st.rng).1 fun _ => 0
+    let H := hist.getD depth #[]
+    let outs := outsOf ctx root st.tt ws H.toList
+    if okOuts ws H.toList outs then
+      ilLoop ctx root rootHash workers hist n (depth + 1) (nops + H.size)
+        (finishStep ctx root rootHash depth (drawSeeds workers st.rng).2 (joinOuts st.tt H.toList outs) st)
+    else
+      match firstMismatch ws H outs with
+      | some d => .error s!"mismatch iteration={depth} worker={d.worker} op={d.op} expected={d.expected} got={d.got}"
+      | Option.none => .error s!"mismatch iteration={depth} worker=- op=- expected=- got=-"
+
+/-- **an accepted replay is a run of the deepening loop under the logged schedules** (`LoopS` of the semantics) -/
+theorem ilLoop_sound (ctx : Ctx) (root : State) (rootHash : UInt64) (workers : Nat) (hist : Array (Array (Nat × TOp))) :
+    ∀ (n depth nops : Nat) (st : IterSt) (r : Nat × Nat × IterSt),
+      ilLoop ctx root rootHash workers hist n depth nops st = .ok r →
+      LoopS ctx root rootHash (fun _ => workers) n depth st r.2.2 := by
+  intro n
+  induction n with
+  | zero =>
+    intro depth nops st r h
+    simp only [ilLoop, Except.ok.injEq] at h
+    subst h
+    exact .done depth st
+  | succ n ih =>
+    intro depth nops st r h
+    rw [ilLoop] at h
+    by_cases hf : st.finished = true
+    · rw [if_pos hf] at h
+      simp only [Except.ok.injEq] at h
+      subst h
+      exact .finished n depth st hf
+    · rw [if_neg hf] at h
+      simp only at h
+      split at h
+      · rename_i hok
+        exact .step n depth st _ _ (by simpa using hf)
+          (ilStep_sound ctx root rootHash workers depth st (hist.getD depth #[]).toList hok) (ih _ _ _ _ h)
+      · split at h <;> cases h
+
+/-- the answer line of an accepted replay -/
+def okLine (hist : Array (Array (Nat × TOp))) (rootHash : UInt64) (depth nops : Nat) (st : IterSt) : String :=
+  match st.panic with
+  | some _ => "panic"
+  | Option.none =>
+    -- the real search must not have started another iteration
+    let extra := (hist.toList.drop depth).foldl (fun a h => a + h.size) 0
+    if extra > 0 then
+      s!"mismatch iteration={depth} worker=- op=0 expected=no-such-iteration got={extra}-operations"
+    else
+      let events := if st.tt.entries * 2 > st.tt.maxEntries then st.events ++ [.warning] else st.events
+      joinSp ([s!"ok {depth} {nops}"] ++ events.map eventStr ++
+        [s!"entries:{st.tt.entries}/{st.tt.maxEntries}", s!"root:{entryStr (st.tt.find rootHash.toNat)}"])
+
+/-- the whole search as `ilcheck` rebuilds it: fresh table, history = [root] (`kt`, `rng0`: the keys and the
+generator, both made from the seed) -/
+def ilSearch (root : State) (kt : KeyTable) (rng0 : Rng.ChaCha8) (depth workers tables buckets : Nat)
+    (hist : Array (Array (Nat × TOp))) : Except String (Nat × Nat × IterSt) :=
+  let rootHash := Wee.hash kt.keys root
+  let ctx : Ctx := { keys := kt.keys, history := [rootHash], cancelAt := Option.none }
+  let limit := if (legalMoves root).isEmpty then 0 else depth
+  ilLoop ctx root rootHash workers hist limit 0 0
+    { tt := TT.Access.new tables buckets, rng := rng0, events := [], nodes := 0,
+      bestEval := Ev.negInf, bestMv := Option.none, polls := 0 }
+
+/-- **an accepted replay exhibits the real search as an outcome of `analyze_iterative` under some schedule**
+(`SearchS` of the semantics, with the logged histories as the schedules): the events, the final table and the panic
+status the replay ends with are those of that outcome -/
+theorem ilSearch_sound (root : State) (kt : KeyTable) (rng0 : Rng.ChaCha8) (depth workers tables buckets : Nat)
+    (hist : Array (Array (Nat × TOp))) (r : Nat × Nat × IterSt)
+    (h : ilSearch root kt rng0 depth workers tables buckets hist = .ok r) :
+    SearchS root rng0 (some depth) { keys := kt, tt := TT.Access.new tables buckets, history := [] }
+      (fun _ => workers) Option.none 64
+      { events := if r.2.2.panic.isNone && r.2.2.tt.entries * 2 > r.2.2.tt.maxEntries then r.2.2.events ++ [.warning]
+                  else r.2.2.events
+        artifact := { keys := kt, tt := r.2.2.tt, history := [Wee.hash kt.keys root] }
+        panic := r.2.2.panic } :=
+  ⟨r.2.2, ilLoop_sound _ _ _ _ _ _ _ _ _ _ h, rfl⟩
+
+def ilcheck (line : String) : Out :=
+  let parts := (line.splitOn " ").toArray
+  let nat (i : Nat) : Nat := (parts.getD i "").toNat!
+  let seed := nat 1
+  let depth := nat 2
+  let workers := nat 3
+  let tables := nat 4
+  let buckets := nat 5
+  let nfen := nat 6
+  let fen := " ".intercalate (parts.extract 7 (7 + nfen)).toList
+  match parseFenM fen with
+  | Option.none => ⟨"badfen", "-"⟩
+  | some root =>
+    -- the log: worker records per iteration, in ticket order
+    let res := Id.run do
+      let mut hist : Array (Array (Nat × TOp)) := Array.replicate depth #[]
+      let mut last : Option Nat := Option.none
+      let mut bad : Option String := Option.none
+      for tok in parts.extract (7 + nfen) parts.size do
+        if tok.isEmpty then continue
+        match parseRec tok with
+        | Option.none => bad := some s!"badlog token={tok}"; break
+        | some (t, id, op) =>
+          if (match last with | some l => decide (t ≤ l) | Option.none => false) then
+            bad := some s!"badlog tickets-not-increasing-at={t}"; break
+          last := some t
+          if id ≥ 1000000 then
+            let it := (id - 1000000) / 1000
+            let w := id % 1000
+            if it < hist.size then hist := hist.modify it fun a => a.push (w, op)
+            else bad := some s!"mismatch iteration={it} worker={w} op=0 expected=no-such-iteration got={opStr op}"; break
+      return (hist, bad)
+    match res.2 with
+    | some why => ⟨why, "-"⟩
+    | Option.none =>
+      let kt := (KeyTable.ofRng (Rng.seedFromU64 seed.toUInt64)).1
+      match ilSearch root kt (Rng.seedFromU64 seed.toUInt64) depth workers tables buckets res.1 with
+      | .ok (d, nops, st) => ⟨okLine res.1 (Wee.hash kt.keys root) d nops st, "-"⟩
+      | .error why => ⟨why, "-"⟩
 
 end Driver
